@@ -95,3 +95,52 @@ def _detail_fields_min(v, kind, fields, minimum):
         if not isinstance(d.get(k), (int, float)) or d[k] < m:
             return False
     return True
+
+
+def _match_open(segs, k):
+    """index of the '(' matching the ')' at k"""
+    depth = 0
+    for q in range(k, -1, -1):
+        t, c = segs[q]
+        if c.startswith("punct"):
+            if t == ")":
+                depth += 1
+            elif t == "(":
+                depth -= 1
+                if depth == 0:
+                    return q
+    return None
+
+
+@predicate("star_after_call_with_leading_cast")
+def _star_after_call_with_leading_cast(v, codes):
+    """C01: a binary `*` right after the `)` of a call whose first argument starts with a cast"""
+    d = v.get("detail") or {}
+    if v["kind"] != "false_positive" or d.get("code") not in codes or d.get("seg") != "*" or d.get("cls") != "op:bin":
+        return False
+    segs = [tuple(x) for x in d["segs"]]
+    j = d["seg_index"]
+    k = j - 1
+    while k >= 0 and segs[k][1].startswith("ws"):
+        k -= 1
+    if k < 0 or segs[k] != (")", "punct"):
+        return False
+    o = _match_open(segs, k)
+    if o is None or o == 0 or segs[o - 1][1] != "id:func":
+        return False
+    if segs[o + 1] != ("(", "punct"):
+        return False
+    # the inner parenthesis must be closed by a cast parenthesis
+    for q in range(o + 2, k):
+        if segs[q][0] == ")":
+            return segs[q][1] == "punct:cast"
+    return False
+
+
+@predicate("pair_in_table")
+def _pair_in_table(v, op, pairs):
+    """C02: operator `op` missed at a site whose (operator text, next token) is in the recorded table"""
+    d = v.get("detail") or {}
+    if v["kind"] != "missed" or d.get("op") != op:
+        return False
+    return [d.get("site_op"), d.get("site_next")] in pairs
